@@ -85,9 +85,19 @@ W9 == { <<LBoot, PRet(0, "bootcap", 9, 0 - 1), LCallC("boot", 101), Hold("finish
           x \in { <<>>, <<LCall("boot", 102)>>, <<Boot>> },
           y \in { <<>>, <<LCall("boot", 103), PRet(2, "results", 0 - 1, 103)>>, <<LRel("boot")>> } }
 
+\* W10: the cancelled call carried a capability of this vat in its parameters; the peer's Return (late: after the Finish, or while the
+\* Finish is in flight) gives those references back with releaseParamCaps, or keeps them and releases them by Release later.
+\* The connection stays open: the parameter capability must be shut down without waiting for Close.
+LCallWC(h, t) == [Act("l-call") EXCEPT !.h = h, !.tag = t, !.kind = "withcap-c"]
+PRetRel(i, kind, tag, r) == [Act("p-return") EXCEPT !.q = i, !.kind = kind, !.cap = 0 - 1, !.tag = tag, !.rel = r]
+W10 == { <<LBoot, PRet(0, "bootcap", 9, 0 - 1), LCallWC("boot", 101)>> \o hold \o <<LCancel(101), PRetRel(1, k, 101, TRUE)>> \o (IF hold = <<>> THEN <<>> ELSE <<Go>>) \o y :
+           k \in {"results", "exception"},
+           hold \in { <<>>, <<Hold("finish", 0 - 1)>> },
+           y \in { <<>>, <<LCallWC("boot", 102), PRetRel(2, "results", 102, TRUE)>>, <<LRel("boot")>> } }
+
 VARIABLE done
 Init == done = FALSE
 Next == /\ ~done /\ done' = TRUE
-        /\ \A s \in W1 \cup W2 \cup W3 \cup W4 \cup W5 \cup W6 \cup W7 \cup W8 \cup W9 : PrintT(<<"SCRIPT", ToJson(s)>>)
+        /\ \A s \in W1 \cup W2 \cup W3 \cup W4 \cup W5 \cup W6 \cup W7 \cup W8 \cup W9 \cup W10 : PrintT(<<"SCRIPT", ToJson(s)>>)
 Spec == Init /\ [][Next]_done
 =============================================================================
